@@ -17,13 +17,18 @@ void ompl::msg::log(const char *, int, LogLevel, const char *, ...) {}
 #ifndef MAXIT
 #define MAXIT 2
 #endif
-#define POOL (NSTART + 3 * MAXIT + 12)
-#define MAXM (NSTART + MAXIT + 1)
+#ifndef INTERMEDIATE
+#define INTERMEDIATE 0
+#endif
+#define PMAX (INTERMEDIATE ? 2 * MAXIT : MAXIT)      /* longest branch: with intermediate states every accepted motion adds up to two tree states */
+#define VMAX (3 * MAXIT + 3)
+#define POOL (NSTART + 5 * MAXIT + 12)
+#define MAXM (NSTART + PMAX + 1)
 struct TState : ob::State { int id; };
 static TState g_pool[POOL];
 static int g_alloc, g_free, g_over, g_nextid = 100;
 // ---- ghost records
-static int g_valid_from[MAXIT + 1], g_valid_to[MAXIT + 1], g_nvalid;        // motions the validator accepted
+static int g_valid_from[VMAX + 1], g_valid_to[VMAX + 1], g_nvalid;        // motions the validator accepted
 static int g_goal_id[MAXIT + 1]; static unsigned char g_goal_sat[MAXIT + 1]; static double g_goal_d[MAXIT + 1]; static int g_ngoal;
 static int g_added; static const og::PathGeometric *g_path; static bool g_path_approx; static double g_path_diff;
 static int g_ptc_evals, g_ptc_fire;
@@ -40,6 +45,7 @@ struct StubSpace : ob::StateSpace
     void copyState(ob::State *d, const ob::State *s) const override { static_cast<TState *>(d)->id = static_cast<const TState *>(s)->id; }
     double distance(const ob::State *, const ob::State *) const override { return vt_double_in(0.0, 100.0); }
     bool equalStates(const ob::State *, const ob::State *) const override { return false; }
+    unsigned int validSegmentCount(const ob::State *, const ob::State *) const override { return 1 + (nondet_uchar() & 1); }
     void interpolate(const ob::State *, const ob::State *, double, ob::State *o) const override { static_cast<TState *>(o)->id = g_nextid++; }
     ob::StateSamplerPtr allocDefaultStateSampler() const override { return ob::StateSamplerPtr(); }
     ob::State *allocState() const override { if (g_alloc >= POOL) { g_over = 1; return &g_pool[0]; } TState *s = &g_pool[g_alloc++]; s->id = -1; return s; }
@@ -56,7 +62,7 @@ struct StubMV : ob::MotionValidator
     bool checkMotion(const ob::State *a, const ob::State *b) const override
     {
         bool ok = vt_nondet_bool();
-        if (ok && g_nvalid <= MAXIT) { g_valid_from[g_nvalid] = static_cast<const TState *>(a)->id; g_valid_to[g_nvalid] = static_cast<const TState *>(b)->id; ++g_nvalid; }
+        if (ok && g_nvalid <= VMAX) { g_valid_from[g_nvalid] = static_cast<const TState *>(a)->id; g_valid_to[g_nvalid] = static_cast<const TState *>(b)->id; ++g_nvalid; }
         return ok;
     }
     bool checkMotion(const ob::State *a, const ob::State *b, std::pair<ob::State *, double> &) const override { return checkMotion(a, b); }
@@ -113,6 +119,25 @@ extern "C" void *__dynamic_cast(const void *p, const void *, const void *, long)
 // default DiscreteMotionValidator (std::deque) alive: a table whose slots all hold this forwarder (= the inline body)
 static bool vt_si_check_motion(const ob::SpaceInformation *si, const ob::State *a, const ob::State *b) { return si->motionValidator_->checkMotion(a, b); }
 static void *g_si_vtbl[16];
+// environment model of SpaceInformation::getMotionStates(s1, s2, states, count, endpoints = true, alloc = true): a copy of s1, count-1
+// interpolated states and a copy of s2, freshly allocated.  The chain counts as validated only if the motion validator accepted
+// exactly this motion (s1 -> s2) just before - a chain towards a different end state is NOT covered by that verdict.
+static unsigned vt_si_get_motion_states(const ob::SpaceInformation *si, const ob::State *s1, const ob::State *s2, std::vector<ob::State *> &states, unsigned count, bool, bool)
+{
+    int a = static_cast<const TState *>(s1)->id, b = static_cast<const TState *>(s2)->id;
+    bool covered = g_nvalid > 0 && g_nvalid <= VMAX && g_valid_from[g_nvalid - 1] == a && g_valid_to[g_nvalid - 1] == b;
+    TState *f = static_cast<TState *>(si->allocState()); f->id = a; states.push_back(f);
+    int prev = a;
+    if (count >= 2)
+    {
+        TState *m = static_cast<TState *>(si->allocState()); m->id = g_nextid++; states.push_back(m);
+        if (covered && g_nvalid <= VMAX) { g_valid_from[g_nvalid] = prev; g_valid_to[g_nvalid] = m->id; ++g_nvalid; }
+        prev = m->id;
+    }
+    TState *l = static_cast<TState *>(si->allocState()); l->id = b; states.push_back(l);
+    if (covered && count >= 2 && g_nvalid <= VMAX) { g_valid_from[g_nvalid] = prev; g_valid_to[g_nvalid] = b; ++g_nvalid; }
+    return (unsigned)states.size();
+}
 VT_DECLARE_VTABLE(StubGoal, "_ZTV8StubGoal")
 VT_DECLARE_VTABLE(StubNN, "_ZTV6StubNN")
 VT_DECLARE_VTABLE(StubSampler, "_ZTV11StubSampler")
@@ -134,6 +159,7 @@ extern "C" void harness_rrt_solve()
     g_si.init(new (sp_buf) StubSpace(), new (svc_buf) StubSVC(), new (mv_buf) StubMV(), g_si_vtbl);
 #pragma clang loop unroll(full)
     for (int i = 0; i < 16; ++i) g_si_vtbl[i] = (void *)&vt_si_check_motion;
+    g_si_vtbl[4] = (void *)&vt_si_get_motion_states;
     og::RRT *r = &g_rh.r;
 #pragma clang loop unroll(full)
     for (int i = 0; i < 32; ++i) g_planner_vtbl[i] = (void *)&vt_planner_noop;
@@ -145,7 +171,7 @@ extern "C" void harness_rrt_solve()
     vt::set_raw(r->nn_, (ompl::NearestNeighbors<Motion *> *)nn);
     vt::set_raw(r->sampler_, (ob::StateSampler *)VT_RAW_OBJECT(StubSampler, StubSampler, ss_buf));
     new (&r->rng_.uniDist_) std::uniform_real_distribution<>(0.0, 1.0);
-    r->goalBias_ = 0.05; r->maxDistance_ = vt_double_in(0.0, 100.0); r->addIntermediateStates_ = false;
+    r->goalBias_ = 0.05; r->maxDistance_ = vt_double_in(0.0, 100.0); r->addIntermediateStates_ = INTERMEDIATE != 0;
     { std::string &n = r->name_; n._M_dataplus._M_p = n._M_local_buf; n._M_string_length = 3; n._M_local_buf[0] = 'R'; n._M_local_buf[1] = 'R'; n._M_local_buf[2] = 'T'; n._M_local_buf[3] = 0; }
 #pragma clang loop unroll(full)
     for (int i = 0; i < NSTART; ++i) g_startst[i].id = 1 + i;
@@ -166,20 +192,20 @@ extern "C" void harness_rrt_solve()
                  "the returned status agrees with the approximate flag stored with the path");
         const std::vector<ob::State *> &ps = g_path->states_;
         unsigned n = ps.size();
-        VT_CHECK(n >= 1 && n <= MAXIT + 1, "the path is not empty");
+        VT_CHECK(n >= 1 && n <= PMAX + 1, "the path is not empty");
         int first = static_cast<const TState *>(ps[0])->id;
         VT_CHECK(first >= 1 && first <= NSTART, "the path starts at one of the start states");
 #pragma clang loop unroll(full)
-        for (unsigned i = 0; i + 1 <= MAXIT; ++i)
+        for (unsigned i = 0; i + 1 <= PMAX; ++i)
             if (i + 1 < n)
             {
                 int a = static_cast<const TState *>(ps[i])->id, b = static_cast<const TState *>(ps[i + 1])->id;
                 bool validated = false;
 #pragma clang loop unroll(full)
-                for (int k = 0; k <= MAXIT; ++k) if (k < g_nvalid && g_valid_from[k] == a && g_valid_to[k] == b) validated = true;
+                for (int k = 0; k <= VMAX; ++k) if (k < g_nvalid && g_valid_from[k] == a && g_valid_to[k] == b) validated = true;
                 VT_CHECK(validated, "every motion of the reported path was accepted by the motion validator");
             }
-        int last = static_cast<const TState *>(ps[MAXIT < n - 1 ? MAXIT : n - 1])->id;
+        int last = static_cast<const TState *>(ps[PMAX < n - 1 ? PMAX : n - 1])->id;
         bool sawLast = false; double dLast = -1; bool satLast = false; double dMin = 1e300;
 #pragma clang loop unroll(full)
         for (int k = 0; k <= MAXIT; ++k)
